@@ -261,18 +261,42 @@ func confirmRace(moduleDir, harness, replayPath string, tries int) (bool, string
 		return false, err.Error()
 	}
 	for t := 0; t < tries; t++ {
-		r := runNative(bin, harness, []string{"VRT_REPLAY=" + replayPath, "VRT_NOBATON=1", "GORACE=halt_on_error=1"}, 30*time.Second)
-		if strings.Contains(r.out, "WARNING: DATA RACE") {
-			where := ""
-			for _, l := range strings.Split(r.out, "\n") {
-				if strings.Contains(l, "godi/v4.") && where == "" {
-					where = strings.TrimSpace(l)
-				}
-			}
+		r := runNative(bin, harness, []string{"VRT_REPLAY=" + replayPath, "VRT_NOBATON=1"}, 30*time.Second)
+		if where := godiRace(r.out); where != "" {
 			return true, fmt.Sprintf("go -race: DATA RACE after %d run(s): %s", t+1, where)
 		}
 	}
 	return false, fmt.Sprintf("go -race reported nothing in %d free-running runs", tries)
+}
+
+// godiRace scans the race detector's reports and returns the first one whose two
+// conflicting accesses are both made by godi's own code (top frame of each
+// access stack in the module under test, not in the harness or its kit).
+func godiRace(out string) string {
+	lines := strings.Split(out, "\n")
+	inGodi := func(fn string) bool {
+		return strings.Contains(fn, "github.com/junioryono/godi/") && !strings.Contains(fn, "/zzverif")
+	}
+	for i := 0; i < len(lines); i++ {
+		if !strings.Contains(lines[i], "WARNING: DATA RACE") {
+			continue
+		}
+		var tops, locs []string
+		for j := i + 1; j < len(lines) && !strings.HasPrefix(lines[j], "=================="); j++ {
+			l := lines[j]
+			if (strings.HasPrefix(l, "Read at ") || strings.HasPrefix(l, "Write at ") || strings.HasPrefix(l, "Previous read at ") || strings.HasPrefix(l, "Previous write at ") || strings.HasPrefix(l, "Atomic") || strings.HasPrefix(l, "Previous atomic")) && j+2 < len(lines) {
+				tops = append(tops, strings.TrimSpace(lines[j+1]))
+				f := strings.Fields(strings.TrimSpace(lines[j+2]))
+				if len(f) > 0 {
+					locs = append(locs, strings.Fields(l)[0]+" "+filepath.Base(f[0]))
+				}
+			}
+		}
+		if len(tops) == 2 && inGodi(tops[0]) && inGodi(tops[1]) {
+			return tops[0] + " [" + strings.Join(locs, "] vs [") + "] " + tops[1]
+		}
+	}
+	return ""
 }
 
 func confirmNatively(bin, harness, replayPath, assertID string, tries int) (bool, string) {
